@@ -1,17 +1,143 @@
-//! Twin-world executor (C12, C06): every op runs on world 0 and on world 1.
-use crate::plan::Plan;
+//! Twin-world executor (C12, C06): every op runs on world 0 and then on world 1.
+//!
+//! * C12: world 0 stores codes through sylvia's `CodeId::store_code` and is driven only through
+//!   generated proxies (`Op::Twin`); world 1 stores the same programs behind fault links and is
+//!   driven only with JSON text composed from the SPEC.
+//! * C06: both worlds are driven by the same raw ops; world 0 deploys the generated entry
+//!   points (`codes`), world 1 the reference deployment (`codes1`).
+
+use crate::plan::{Doc, Op, Plan, Twin};
 use crate::reg::Reg;
-use crate::world::RunRecord;
+use crate::values::doc_for;
+use crate::world::{guarded, OpRecord, Outcome, RunRecord, World};
+use rt::bb;
 use std::collections::BTreeMap;
 
-pub fn execute_twin(_plan: &Plan, _reg: &Reg) -> RunRecord {
+pub const FLAVOUR_PROXY: u8 = 2;
+
+/// the raw operation the property prescribes for a proxy call
+pub fn raw_of(t: &Twin, w1: &World, reg: &Reg) -> Op {
+    let args = t.args.as_object().cloned().unwrap_or_default();
+    if t.hid == "instantiate" {
+        let cid = w1.codes.get(t.code).map(|c| c.cid.clone()).unwrap_or_default();
+        let h = reg.get(&cid).and_then(|e| e.spec.of_kind(rt::spec::Kind::Instantiate).next());
+        let msg = match h {
+            Some(h) => Doc::json(&doc_for(h, &args)),
+            None => Doc::json(&t.args),
+        };
+        return Op::Instantiate {
+            code: t.code,
+            sender: t.sender.clone(),
+            msg,
+            // the label a proxy uses when none is set is mirrored, not asserted
+            label: t.label.clone().unwrap_or_else(|| "Contract".to_string()),
+            admin: t.admin.clone(),
+            funds: t.funds.clone().unwrap_or_default(),
+            salt: t.salt.clone(),
+            intent: None,
+        };
+    }
+    let target = w1.contracts.get(t.slot).map(|c| c.addr.clone()).unwrap_or_else(|| "nowhere".into());
+    let cid = w1.contracts.get(t.slot).map(|c| c.cid.clone()).unwrap_or_default();
+    let kind = t.hid.split(':').next().unwrap_or("");
+    // a migrate message belongs to the *new* code
+    let spec_cid = if kind == "migrate" {
+        w1.codes.get(t.code).map(|c| c.cid.clone()).unwrap_or(cid)
+    } else {
+        cid
+    };
+    let h = reg.get(&spec_cid).and_then(|e| e.spec.handler(&t.hid));
+    let msg = match h {
+        Some(h) => Doc::json(&doc_for(h, &args)),
+        None => Doc::json(&t.args),
+    };
+    match kind {
+        "execute" => Op::Exec { target, sender: t.sender.clone(), msg, funds: t.funds.clone().unwrap_or_default(), intent: None },
+        "query" => Op::Query { target, msg, intent: None },
+        "sudo" => Op::Sudo { target, msg, intent: None },
+        _ => Op::Migrate { target, sender: t.sender.clone(), code: t.code, msg, intent: None },
+    }
+}
+
+pub fn execute_twin(plan: &Plan, reg: &Reg) -> RunRecord {
+    let mut w0 = World::new(reg, plan.custom_chain, &plan.accounts);
+    let mut w1 = World::new(reg, plan.custom_chain, &plan.accounts);
+    let mut harness_error = None;
+    bb::set_world(0);
+    for c in &plan.codes {
+        let r = if c.flavour == FLAVOUR_PROXY { w0.store_via_proxy(c) } else { w0.store(c) };
+        if let Err(e) = r {
+            harness_error = Some(format!("world 0 store {}: {}", c.cid, e));
+        }
+    }
+    bb::set_world(1);
+    for c in &plan.codes1 {
+        if let Err(e) = w1.store(c) {
+            harness_error = Some(format!("world 1 store {}: {}", c.cid, e));
+        }
+    }
+    if w0.code_ids != w1.code_ids {
+        harness_error = Some(format!("code ids differ between the worlds: {:?} vs {:?}", w0.code_ids, w1.code_ids));
+    }
+    let mut recs = vec![];
+    let all: Vec<(bool, &Op)> = plan.setup.iter().map(|o| (true, o)).chain(plan.ops.iter().map(|o| (false, o))).collect();
+    for (i, (setup, op)) in all.into_iter().enumerate() {
+        bb::begin_op(i as u32);
+        // ---- world 0
+        bb::set_world(0);
+        let outcome = match op {
+            Op::Twin(t) => w0.proxy_apply(t),
+            other => match guarded(|| w0.apply(other)) {
+                Ok(o) => o,
+                Err(p) => Outcome::Panic(p),
+            },
+        };
+        // ---- world 1
+        bb::set_world(1);
+        bb::with(|s| s.ord = 0);
+        let outcome1 = match op {
+            Op::Twin(t) => {
+                let raw = raw_of(t, &w1, reg);
+                match guarded(|| w1.apply(&raw)) {
+                    Ok(o) => o,
+                    Err(p) => Outcome::Panic(p),
+                }
+            }
+            other => match guarded(|| w1.apply(other)) {
+                Ok(o) => o,
+                Err(p) => Outcome::Panic(p),
+            },
+        };
+        let events = bb::take_events();
+        w0.discover_from(&events, 0);
+        w1.discover_from(&events, 1);
+        // the proxy world has no link to learn about contracts created by scripts: mirror them
+        for c in w1.contracts.clone() {
+            if !w0.contracts.iter().any(|x| x.addr == c.addr) {
+                w0.contracts.push(c);
+            }
+        }
+        let state = guarded(|| w0.state()).unwrap_or_default();
+        let state1 = guarded(|| w1.state()).unwrap_or_default();
+        recs.push(OpRecord {
+            idx: i as u32,
+            setup,
+            events,
+            outcome,
+            outcome1: Some(outcome1),
+            state,
+            state1: Some(state1),
+            block: w0.block(),
+        });
+    }
+    bb::set_world(0);
     RunRecord {
-        contracts: vec![],
-        contracts1: vec![],
-        code_ids: vec![],
-        accounts: vec![],
-        ops: vec![],
+        contracts: w0.contracts.clone(),
+        contracts1: w1.contracts.clone(),
+        code_ids: w1.code_ids.clone(),
+        accounts: w1.accounts.clone(),
+        ops: recs,
         fired: BTreeMap::new(),
-        harness_error: Some("twin runs not built yet".to_string()),
+        harness_error,
     }
 }
